@@ -128,6 +128,37 @@ def run(ctx):
         st = Stub(torch, {'a': ms[0][1], 'b': ms[1][1]})
         d = DUCCIO({'a': torch.tensor(float(ms[0][2])), 'b': torch.tensor(float(ms[1][2]))}, final_strengths=(torch.tensor(float(ms[0][0])), torch.tensor(float(ms[1][0]))))
         cases.append({'kind': 'default-args', 'ms': ms, 'e': 1, 'n': 1, 'impl': float(d(st)), 'grads': None})
+    # ---- (d2) infinite targets (a metric that can never be penalised) in any position: the other metrics keep THEIR
+    #      strengths; integer-dtype cost tensors with non-integer strengths
+    for i in range(40 if ctx.quick else 400):
+        k = ctx.rng.randint(2, 3)
+        ms = gen_metrics(ctx.rng, k)
+        pos = ctx.rng.randrange(k)                      # which metric has the infinite target
+        names = ['m%d' % j for j in range(k)]
+        st = Stub(torch, {nm: m[1] for nm, m in zip(names, ms)})
+        tg = {nm: torch.tensor(float('inf') if j == pos else float(m[2])) for j, (nm, m) in enumerate(zip(names, ms))}
+        d = DUCCIO(tg, final_strengths=tuple(torch.tensor(float(m[0])) for m in ms))
+        n = ctx.rng.randint(1, 50)
+        e = ctx.rng.randint(0, n)
+        v = float(d(st, epoch=e, n_epochs=n))
+        rest = [m for j, m in enumerate(ms) if j != pos]
+        cases.append({'kind': 'inf-target', 'ms': rest, 'e': e, 'n': n, 'impl': v, 'grads': None})
+        info = {'metrics(strength,cost,target)': ms, 'infinite_target_at': pos, 'epoch': e, 'n_epochs': n, 'impl': v}
+        oracle('inf-target', math.isfinite(v) and v >= 0 and ((v == 0.0) == all(m[1] <= m[2] for m in rest)), 'duccio-zero-iff', info)
+        # the penalty is the one of the regularizer that simply does not have that metric (each remaining metric with ITS strength)
+        rn = [nm for j, nm in enumerate(names) if j != pos]
+        d2 = DUCCIO({nm: torch.tensor(float(m[2])) for nm, m in zip(rn, rest)}, final_strengths=tuple(torch.tensor(float(m[0])) for m in rest))
+        v2 = float(d2(Stub(torch, {nm: m[1] for nm, m in zip(rn, rest)}), epoch=e, n_epochs=n))
+        oracle('inf-target', abs(v - v2) <= 1e-5 * max(1.0, abs(v2)), 'duccio-infinite-target-changes-other-metrics', dict(info, value_without_that_metric=v2))
+    for i in range(30):
+        s_, c_ = dy(ctx.rng, 0.001, 4, bits=10), ctx.rng.randint(0, 5000)
+        for dt in (torch.int64, torch.int32, torch.float64):
+            class IStub:
+                def get_cost(self, n, c_=c_, dt=dt):
+                    return torch.tensor(c_, dtype=dt)
+            v = float(BaseRegularizer('params', float(s_))(IStub()))
+            basecases.append((s_, Fraction(c_), v))
+            oracle('base', abs(v - float(s_ * c_)) <= 1e-6 * max(1.0, float(s_ * c_)), 'base-not-strength-times-cost', {'strength': s_, 'cost': c_, 'cost_dtype': str(dt), 'impl': v})
     # ---- (e) real PIT models
     import torch.nn as nn
     from plinio.methods import PIT
